@@ -15,3 +15,31 @@ CHECKS = {
  },
 }
 NOT_APPLICABLE = {}
+
+# entries written by the property builders live in design_notes/CXX.md (python block under "MANIFEST entry");
+# a property is claimed only once the maintainer has reviewed it and listed it in ACCEPTED
+ACCEPTED = []
+
+
+def _load_notes():
+    import ast, re
+    from pathlib import Path
+    d = Path(__file__).resolve().parent.parent / "design_notes"
+    for pid in ACCEPTED:
+        txt = (d / (pid + ".md")).read_text()
+        m = re.search(r"MANIFEST[^\n]*\n(?:.*\n)*?```(?:python)?\n(.*?)```", txt, re.S)
+        if not m:
+            raise SystemExit("no MANIFEST block in design_notes/%s.md" % pid)
+        code = m.group(1).strip()
+        code = re.sub(r"^[A-Za-z_]+\s*=\s*", "", code)
+        if not code.startswith("{"):
+            code = "{" + code + "}"
+        val = ast.literal_eval(code.rstrip(",\n ") if code.endswith("}") else code)
+        if pid in val:
+            val = val[pid]
+        assert set(("text", "note", "technique")) <= set(val), (pid, val.keys())
+        CHECKS[pid] = val
+
+
+_load_notes()
+
